@@ -475,6 +475,27 @@ func verifHosts(l *roundRobinLoadBalancer) []*Host { return l.hosts.Load().([]*H
 //@   entry-set $outageZero = (t.wall == 0 && t.ext == 0)
 //@   modifies c.outageTime
 
+// connPool.stayConnected: one goroutine per pool slot keeps the slot connected.
+//   a pending reconnect always has its timer running; every reconnect timer is started with the delay
+//   the policy just returned; a successful connect resets the policy.
+//@ loop proxycore.connPool.stayConnected #1
+//@   invariant pending-connect-armed: connectTimer != nil && (pendingConnect ==> connectTimer.$armed) [C16]
+//@   invariant reset-after-success: $cpConnected ==> $cpReset [C16]
+//@   invariant backoff-from-policy: $cpTimersOK [C16]
+
+//@ func proxycore.connPool.stayConnected [C16, C17, C18]
+//@   local $cpConnected bool = false
+//@   local $cpReset bool = false
+//@   local $cpLastDelay time.Duration = 0
+//@   local $cpTimersOK bool = true
+//@   requires p != nil && p.connsMu != nil && p.config.ReconnectPolicy != nil && p.logger != nil && 0 <= idx && idx < len(p.conns)
+//@   after select#* set $cpConnected = false; $cpReset = false; connectTimer.$armed = connectTimer.$armed && !(selcases == 2 && selidx == 1 && conn == nil)
+//@   after proxycore.ReconnectPolicy.NextDelay#* set $cpLastDelay = result
+//@   before time.NewTimer#* set $cpTimersOK = $cpTimersOK && arg0 == $cpLastDelay
+//@   after proxycore.connPool.connect#* set $cpConnected = (result1 == nil)
+//@   before proxycore.ReconnectPolicy.Reset#* set $cpReset = true
+//@   modifies *, any(time.Timer).$armed
+
 //@ func proxycore.Cluster.sendEvent [C16]
 //@   requires c != nil
 //@   preserves-type proxycore.Cluster, proxycore.ClusterConfig
@@ -521,6 +542,9 @@ func verifHosts(l *roundRobinLoadBalancer) []*Host { return l.hosts.Load().([]*H
 //@   ensures connOK(c.controlConn)
 //@   ensures outage-only-without-connection: c.controlConn != nil ==> $outageZero
 //@   ensures !result ==> c.hosts == old(c.hosts) && clusterOK(c)
+// "fails the control connection over to another known host": an attempt that fails moves on - the next
+// attempt targets the following host of the list (or starts over after a host list mismatch)
+//@   ensures rotates: !result ==> c.currentHostIndex == (old(c.currentHostIndex) + 1) % len(old(c.hosts)) || c.currentHostIndex == -1
 //@   ensures c.logger == old(c.logger) && c.config.Resolver == old(c.config.Resolver) && c.config.ReconnectPolicy == old(c.config.ReconnectPolicy)
 //@   modifies *, $outageZero
 
@@ -557,6 +581,8 @@ func verifHosts(l *roundRobinLoadBalancer) []*Host { return l.hosts.Load().([]*H
 //@   invariant failover-possible: clusterOK(c) [C16, C17]
 //@   invariant conn-usable: connOK(c.controlConn) [C16, C17]
 //@   invariant outage-only-without-connection: c.controlConn != nil ==> $outageZero [C16]
+//@   invariant reset-after-success: $clReconnected ==> $clReset [C16]
+//@   invariant backoff-from-policy: $clTimersOK [C16]
 //@   invariant timers: refreshTimer != nil && connectTimer != nil && refreshTimer != connectTimer [C16]
 //@   invariant pending-refresh-armed: pendingRefresh ==> refreshTimer.$armed [C16]
 //@   invariant pending-connect-armed: pendingConnect ==> connectTimer.$armed [C16]
@@ -571,8 +597,19 @@ func verifHosts(l *roundRobinLoadBalancer) []*Host { return l.hosts.Load().([]*H
 //@   local $evMsg message.Message = nil
 //@   local $evListeners int = 0
 //@   requires c != nil && c.config.ReconnectPolicy != nil
+// "delays that stay within the configured backoff bounds and reset after success": every reconnect timer
+// is started with the delay the policy just returned, and a successful reconnect resets the policy
+//@   local $clReconnected bool = false
+//@   local $clReset bool = false
+//@   local $clLastDelay time.Duration = 0
+//@   local $clTimersOK bool = true
+//@   after proxycore.ReconnectPolicy.NextDelay#* set $clLastDelay = result
+//@   before time.NewTimer#* set $clTimersOK = $clTimersOK && (arg0 == $clLastDelay || arg0 == getOrUseDefault(c.config.RefreshWindow, DefaultRefreshWindow))
+//@   after proxycore.Cluster.reconnect#* set $clReconnected = result
+//@   before proxycore.ReconnectPolicy.Reset#* set $clReset = true
 //@   requires after-start-up: clusterOK(c) && connOK(c.controlConn) && (c.controlConn != nil ==> $outageZero) [C16]
 //@   after select#* set $evTaken = (selidx == 4); $evFwd = false; $evListeners = len(c.listeners); $evMsg = recv4.Body.Message
+//@   after select#* set $clReconnected = false; $clReset = false
 //@   before proxycore.ClusterListener.OnEvent#* set $evFwd = true
 // receiving from a timer's channel consumes its firing: case 1 of the two-way select is connectTimer.C,
 // case 3 of the five-way select is refreshTimer.C
